@@ -799,6 +799,162 @@ Proof.
       unfold qnodes. simpl. rewrite app_nil_r. reflexivity.
 Qed.
 
+(* ================================================================== *)
+(* upload of a directory = one semantic operation per node, in BFS order *)
+
+(* what uploading one node does: mkdir -p, or mkdir -p of the parent and a write *)
+Definition sem_op (A : list name) (fs : tree) (pt : list name * tree) : tree :=
+  match snd pt with
+  | Dir _ => ensure_dir fs (A ++ fst pt)
+  | File c => write_at fs (A ++ fst pt) c
+  end.
+
+(* the commands of that node are accepted by the server *)
+Definition op_ok (A : list name) (fs : tree) (pt : list name * tree) : Prop :=
+  match snd pt with
+  | Dir _ => no_file_on fs (A ++ fst pt)
+  | File _ => no_file_on fs (removelast (A ++ fst pt)) /\
+              forall ch, lookup fs (A ++ fst pt) <> Some (Dir ch)
+  end.
+
+Fixpoint run_ok (A : list name) (fs : tree) (ops : list (list name * tree)) : Prop :=
+  match ops with
+  | [] => True
+  | op :: r => op_ok A fs op /\ run_ok A (sem_op A fs op) r
+  end.
+
+Lemma run_ok_app A ops1 : forall fs ops2,
+  run_ok A fs (ops1 ++ ops2) <-> run_ok A fs ops1 /\ run_ok A (fold_left (sem_op A) ops1 fs) ops2.
+Proof.
+  induction ops1 as [|op ops1 IH]; intros fs ops2; simpl; [tauto|]. rewrite IH. tauto.
+Qed.
+
+Lemma cwd_after_ensure fs cwd chc P :
+  lookup fs cwd = Some (Dir chc) -> exists chc', lookup (ensure_dir fs P) cwd = Some (Dir chc').
+Proof.
+  intro L. apply look_dir. rewrite look_ensure_dir. destruct (is_prefix cwd P); [reflexivity|].
+  apply look_dir. eauto.
+Qed.
+
+Lemma cwd_after_write fs cwd chc P c :
+  lookup fs cwd = Some (Dir chc) -> (forall ch, lookup fs P <> Some (Dir ch)) ->
+  exists chc', lookup (write_at fs P c) cwd = Some (Dir chc').
+Proof.
+  intros L ND. apply look_dir. rewrite look_write_at.
+  destruct (strip_prefix P cwd) as [r|] eqn:S.
+  - exfalso. apply strip_prefix_Some in S. subst cwd. rewrite lookup_app in L.
+    destruct (lookup fs P) as [[c0|ch]|] eqn:LP; try discriminate.
+    + destruct r; simpl in L; discriminate.
+    + eapply ND; reflexivity.
+  - destruct (is_prefix cwd P); [reflexivity|]. apply look_dir. eauto.
+Qed.
+
+Lemma cwd_after_op A fs cwd chc op :
+  lookup fs cwd = Some (Dir chc) -> op_ok A fs op ->
+  exists chc', lookup (sem_op A fs op) cwd = Some (Dir chc').
+Proof.
+  unfold sem_op, op_ok. destruct (snd op); intros L H.
+  - destruct H as [_ ND]. eapply cwd_after_write; eauto.
+  - eapply cwd_after_ensure; eauto.
+Qed.
+
+Lemma cwd_after_ops A cwd ops : forall fs chc,
+  lookup fs cwd = Some (Dir chc) -> run_ok A fs ops ->
+  exists chc', lookup (fold_left (sem_op A) ops fs) cwd = Some (Dir chc').
+Proof.
+  induction ops as [|op ops IH]; intros fs chc L R; simpl; [eauto|].
+  destruct R as [R1 R2]. destruct (cwd_after_op A fs cwd chc op L R1) as [chc' L'].
+  eapply IH; eauto.
+Qed.
+
+(* a way of computing `relative` that lands at A ++ rel on the server *)
+Definition relf_ok (cwd A : list name) (relf : list name -> ppath) : Prop :=
+  forall r, resolve cwd (relf r) = A ++ r /\ (r <> [] -> p_parts (relf r) <> []).
+
+Lemma upload_children_fold cwd A relf rel :
+  relf_ok cwd A relf ->
+  forall ch fs chc,
+    lookup fs cwd = Some (Dir chc) ->
+    run_ok A fs (children_nodes rel ch) ->
+    upload_children cwd relf rel ch fs
+    = Ok (fold_left (sem_op A) (children_nodes rel ch) fs, subdirs rel ch).
+Proof.
+  intros RF. induction ch as [|[n [c|sub]] ch IH]; intros fs chc Hc R; [reflexivity| |].
+  - cbn [children_nodes map fst snd] in R. fold (children_nodes rel ch) in R.
+    destruct R as [[NF ND] R]. cbn [fst snd] in NF, ND.
+    cbn [upload_children]. destruct (RF (rel ++ [n])) as [E NE].
+    rewrite (upload_file_exact cwd fs (relf (rel ++ [n])) c chc Hc).
+    + rewrite E. cbn [bind]. destruct (cwd_after_write fs cwd chc (A ++ rel ++ [n]) c Hc ND) as [chc' Hc'].
+      rewrite (IH _ chc' Hc' R). reflexivity.
+    + apply NE. destruct rel; discriminate.
+    + rewrite E. exact NF.
+    + rewrite E. exact ND.
+  - cbn [children_nodes map fst snd] in R. fold (children_nodes rel ch) in R.
+    destruct R as [NF R]. cbn [op_ok fst snd] in NF.
+    cbn [upload_children]. destruct (RF (rel ++ [n])) as [E NE].
+    rewrite (make_directory_exact cwd fs (relf (rel ++ [n])) chc Hc); [|rewrite E; exact NF].
+    rewrite E. cbn [bind].
+    destruct (cwd_after_ensure fs cwd chc (A ++ rel ++ [n]) Hc) as [chc' Hc'].
+    rewrite (IH _ chc' Hc' R). reflexivity.
+Qed.
+
+Lemma upload_loop_fold cwd A relf :
+  relf_ok cwd A relf ->
+  forall fuel q fs chc,
+    lookup fs cwd = Some (Dir chc) ->
+    (qsize q <= fuel)%nat ->
+    run_ok A fs (bfs fuel q) ->
+    upload_loop fuel cwd relf q fs = Ok (fold_left (sem_op A) (bfs fuel q) fs).
+Proof.
+  intros RF. induction fuel as [|f IH]; intros [|[rel ch] qr] fs chc Hc Hq R; try reflexivity.
+  - rewrite qsize_cons in Hq. lia.
+  - cbn [bfs] in *. apply run_ok_app in R as [R1 R2]. cbn [upload_loop].
+    rewrite (upload_children_fold cwd A relf rel RF ch fs chc Hc R1). cbn [bind fst snd].
+    destruct (cwd_after_ops A cwd _ fs chc Hc R1) as [chc' Hc'].
+    rewrite (IH _ _ chc' Hc'); [rewrite fold_left_app; reflexivity| |assumption].
+    rewrite qsize_app. pose proof (qsize_subdirs rel ch). rewrite qsize_cons in Hq. lia.
+Qed.
+
+Lemma relf_ok_fixed cwd dst' : relf_ok cwd (resolve cwd dst') (relative_fixed dst').
+Proof.
+  intro r. unfold relative_fixed. rewrite resolve_join. split; [reflexivity|].
+  intro Hr. unfold pjoin. simpl. intro E. apply app_eq_nil in E as [_ E]. contradiction.
+Qed.
+
+(* where the code as written sends the children: cwd / <last component> *)
+Definition bug_anchor (write_into : bool) (dst' : ppath) (src_name : name) : ppath :=
+  of_name (if write_into then pname dst' else src_name).
+
+Lemma relf_ok_bug cwd wi dst' nm :
+  relf_ok cwd (resolve cwd (bug_anchor wi dst' nm)) (relative_bug wi dst' nm).
+Proof.
+  intro r. unfold relative_bug, bug_anchor. destruct wi; rewrite resolve_join; (split; [reflexivity|]);
+    intro Hr; unfold pjoin; simpl; intro E; apply app_eq_nil in E as [_ E]; contradiction.
+Qed.
+
+Definition upload_anchor (fixed wi : bool) (dst' : ppath) (nm : name) : ppath :=
+  if fixed then dst' else bug_anchor wi dst' nm.
+
+(* both versions, exactly: the directory is made at the destination; every node of the source is then
+   placed below the anchor *)
+Lemma upload_gen_dir_actual fixed cwd fs nm ch dst wi chc :
+  let dst' := final_destination nm dst wi in
+  let A := resolve cwd dst' in
+  let A' := resolve cwd (upload_anchor fixed wi dst' nm) in
+  lookup fs cwd = Some (Dir chc) ->
+  no_file_on fs A ->
+  run_ok A' (ensure_dir fs A) (bfs (tree_size (Dir ch)) [([], ch)]) ->
+  upload_gen fixed cwd fs nm (Dir ch) dst wi
+  = Ok (fold_left (sem_op A') (bfs (tree_size (Dir ch)) [([], ch)]) (ensure_dir fs A)).
+Proof.
+  intros dst' A A' Hc NF R. unfold upload_gen. fold dst'.
+  rewrite (make_directory_exact cwd fs dst' chc Hc NF). cbn [bind]. fold A.
+  destruct (cwd_after_ensure fs cwd chc A Hc) as [chc' Hc'].
+  apply (upload_loop_fold cwd A') with (chc := chc'); auto.
+  - unfold A', upload_anchor. destruct fixed; [apply relf_ok_fixed|apply relf_ok_bug].
+  - rewrite qsize_cons, tree_size_dir. unfold qsize. simpl. lia.
+Qed.
+
 (* names used by the witnesses: "foo", "x", "y", "a" *)
 Definition n_foo : name := [102; 111; 111].
 Definition n_x : name := [120].
